@@ -28,29 +28,29 @@ type vfRx struct {
 }
 
 type vfPuppet struct {
-	s           *vfSim
-	side        int
-	cfg         vfPuppetCfg
-	peerTag     uint32
-	peerTSN     uint32
-	peerARwnd   uint32
-	peerParams  []wTLV
-	myTag       uint32
-	nSent       int
-	rx          []vfRx
-	onPacket    func(p *wPacket)
-	established bool
+	s             *vfSim
+	side          int
+	cfg           vfPuppetCfg
+	peerTag       uint32
+	peerTSN       uint32
+	peerARwnd     uint32
+	peerParams    []wTLV
+	myTag         uint32
+	nSent         int
+	rx            []vfRx
+	onPacket      func(p *wPacket)
+	established   bool
 	gotCookieEcho int
-	cookie      []byte
-	peerCookie  []byte
-	autoHS      bool
-	silent      bool // do not answer anything
+	cookie        []byte
+	peerCookie    []byte
+	autoHS        bool
+	silent        bool // do not answer anything
 	// honest receiver model for auto-SACK
-	autoSack bool
-	rcvCum   uint32
-	rcvSet   map[uint32]bool
+	autoSack  bool
+	rcvCum    uint32
+	rcvSet    map[uint32]bool
 	sackARwnd uint32
-	nextTSN  uint32
+	nextTSN   uint32
 }
 
 func newVfPuppet(s *vfSim, side int, cfg vfPuppetCfg) *vfPuppet {
